@@ -464,7 +464,7 @@ class GenCalls(Gen):
                 p = r.choice(subs)
                 self.n_calls += 1
                 return {"k": "callsub", "name": p["name"], "args": self.args_for(p)}
-        if self.scope is not None and r.random() < 0.05:
+        if self.scope is not None and r.random() < getattr(self, "exit_prob", 0.05):
             # leaves the procedure from whatever FOR / SELECT CASE / IF nesting this statement is in
             return {"k": "exit", "what": "SUB" if self.scope["k"] == "sub" else "FUNCTION"}
         s = Gen.simple(self)
